@@ -35,7 +35,7 @@ def plan(tier, seed):
 def conclude(agg):
     c = agg['counters']
     return [f'monitor counter {k} is zero' for k in ('san/reads', 'san/cells', 'permutations_run', 'thread_orders_run', 'levels_wide', 'cases/reuse_sharing',
-                                                     'logic_permutations', 'level_structure_checks', 'lsan/operand_checks')
+                                                     'logic_permutations', 'level_structure_checks', 'lsan/operand_checks', 'rescheduled_after_rewiring')
             if c.get(k, 0) == 0]
 
 
@@ -163,6 +163,22 @@ def check_case(case, ctx):
                 ctx.violation('schedule-permutation', f'LogicSim m={m}: results differ after permuting the operations inside the published levels; '
                               f'reuse={case["c_reuse"]} strip={case["strip_forks"]}; {G.net_text(net)[:300]}', case)
                 return
+    with ctx.guard('simulation-raises', case):
+        from .. import graph
+        what = graph.rewire_same_counts(b.c, random.Random(case['stim_seed']), forks_only=True)
+        if what:
+            # same Circuit object, same node/line counts, different wiring: the schedule must be derived afresh
+            ctx.count('rescheduled_after_rewiring')
+            sim2 = WC.make_sim(r, cls='cpu')
+            bad2, _ = I.inv_memmap(sim2, b.c, case['strip_forks'], case['c_reuse'])
+            for m_ in bad2[:2]:
+                ctx.violation('level-structure', f'after {what} (same circuit object): {m_}; {G.net_text(net)[:300]}', case)
+            if not bad2:
+                rep4 = []
+                san2 = shadow.Sanitizer(sim2, b.c, lambda kk, mm: rep4.append((kk, mm)), case['strip_forks'])
+                WC.simulate(r, sim2)
+                for kk, mm in rep4[:2]:
+                    ctx.violation('sanitizer-' + kk, f'after {what} (same circuit object): {mm}; {G.net_text(net)[:300]}', case)
     if case['c_reuse'] and sharing:
         ctx.count('cases/reuse_sharing')
     ctx.case(case, wide and (not case['c_reuse'] or sharing > 0), key=WC.key_of(case))
